@@ -261,6 +261,9 @@ class RawField(Field):
         order = self.ORDER if hasattr(self, "ORDER") else self.order
         if fmt=='c' and isinstance(value,bytes):
             fmt = 's'
+        if self.count > 0 and fmt != 's' and isinstance(value,(tuple,list)):
+            # a counted field unpacks to a tuple of values:
+            return struct.pack(order + pfx + fmt, *value)
         res = struct.pack(order + pfx + fmt, value)
         return res
 
